@@ -139,7 +139,7 @@ fn strip_usage_decor(n: &Node) -> Node {
             | Node::CompleteShell(n, _)
             | Node::Boxed(n) => go(n),
             Node::HideUsage(_) | Node::CustomUsage(..) => unreachable!(),
-            Node::Named(_) | Node::Pos(_) | Node::Pure(_) | Node::Fail(_) => {}
+            Node::Named(_) | Node::Pos(_) | Node::Pure(_) | Node::Fail(_) | Node::Any(_) => {}
         }
     }
     go(&mut out);
